@@ -83,6 +83,7 @@ type C05Plan struct {
 	Segs   []int        `json:"segs,omitempty"`
 	RSeed  uint64       `json:"rseed,omitempty"`  // dec: seed of the reference writer's random values
 	Corpus int          `json:"corpus,omitempty"` // corpus: entry index
+	Outs   int          `json:"outs,omitempty"`   // dec/corpus: this many non-matching identities (X25519, ssh-ed25519, ssh-rsa in turn) are listed before the matching one
 	Reuse  int          `json:"reuse,omitempty"`  // enc: the recipient objects (one per distinct key) already encrypted this many files before the checked one
 }
 
@@ -138,6 +139,12 @@ func (C05) Generate(r *core.RNG, tier string, idx uint64) interface{} {
 		p.Mode = "cctv"
 		p.Corpus = int(idx) - nc
 		return p
+	case int(idx) < 2*nc+nv:
+		// the frozen files once more, behind identities that match nothing
+		p.Mode = "corpus"
+		p.Corpus = int(idx) - nc - nv
+		p.Outs = 1 + int(idx)%3
+		return p
 	case idx%4000 == 1000:
 		p.Mode = "big"
 		p.File.Recips = []lib.Recip{{Key: &world.Key{T: "x", K: r.Intn(world.NX25519)}}}
@@ -163,6 +170,9 @@ func (C05) Generate(r *core.RNG, tier string, idx uint64) interface{} {
 	p.Segs = lib.GenSegs(r, p.File.PLen)
 	if p.Mode == "enc" && r.Chance(1, 4) {
 		p.Reuse = r.Range(1, 2)
+	}
+	if p.Mode == "dec" && r.Chance(1, 2) {
+		p.Outs = r.Range(1, 3)
 	}
 	return p
 }
@@ -361,13 +371,26 @@ func (e C05) execDec(p *C05Plan, c *core.Ctx) *core.Verdict {
 	for _, k := range spec.Keys() {
 		c.Stats.Eval(fmt.Sprintf("dec|%s|r%d|%s", spec.Skeleton(), p.RSeed, k), true)
 		src := seam.NewSource(img, seam.Delivery{Mode: "whole"}, nil, nil)
-		res := lib.Decrypt(src.Reader(), spec.Armor, []age.Identity{world.Identity(k)}, lib.ReadSched{Mode: "all"}, nil)
-		c.Log.Add("ref-written %s opened by %s: released=%d %s", spec.Skeleton(), k, len(res.Released), res.ErrText())
+		res := lib.Decrypt(src.Reader(), spec.Armor, idsWithOutsiders(spec.Keys(), k, p.Outs), lib.ReadSched{Mode: "all"}, nil)
+		c.Log.Add("ref-written %s opened by %s after %d non-matching identities: released=%d %s", spec.Skeleton(), k, p.Outs, len(res.Released), res.ErrText())
 		if !res.Clean() || !bytes.Equal(res.Released, P) {
 			return core.Fail("C05.decrypt_ref_file", "a file written by the reference encoder for %s is not decrypted by identity %s: %s after %d of %d bytes", spec.Skeleton(), k, res.ErrText(), len(res.Released), len(P))
 		}
 	}
 	return nil
+}
+
+// idsWithOutsiders: n identities that match nothing in the file, then the one that does (a passphrase file is
+// only ever opened with its own identity).
+func idsWithOutsiders(listed []world.Key, k world.Key, n int) []age.Identity {
+	var ids []age.Identity
+	if k.T != "s" {
+		outs := genOutsidersFixed(listed)
+		for i := 0; i < n && i < len(outs); i++ {
+			ids = append(ids, world.Identity(outs[i]))
+		}
+	}
+	return append(ids, world.Identity(k))
 }
 
 func (e C05) execCorpus(p *C05Plan, c *core.Ctx) *core.Verdict {
@@ -386,7 +409,7 @@ func (e C05) execCorpus(p *C05Plan, c *core.Ctx) *core.Verdict {
 		return core.Fail("C05.corpus_harness", "corpus file %s does not have its recorded hash", en.Name)
 	}
 	src := seam.NewSource(img, seam.Delivery{Mode: "whole"}, nil, nil)
-	res := lib.Decrypt(src.Reader(), en.Armor, []age.Identity{world.Identity(en.Key)}, lib.ReadSched{Mode: "all"}, nil)
+	res := lib.Decrypt(src.Reader(), en.Armor, idsWithOutsiders([]world.Key{en.Key}, en.Key, p.Outs), lib.ReadSched{Mode: "all"}, nil)
 	c.Log.Add("corpus %s: released=%d %s", en.Name, len(res.Released), res.ErrText())
 	h := sha256.Sum256(res.Released)
 	if !res.Clean() || hex.EncodeToString(h[:]) != en.PlainSHA {
